@@ -13,7 +13,7 @@ import (
 )
 
 func init() {
-	register("C14", 25, "Decided (for every path of the current source): (R1) between receiving and re-sending the action the relay only stores constant false into capability flags and clamps Protocol to its own maximum on the Protocol>max edge; without a tunnel the binary capability is cleared on every path to the re-send; the config is only extended by tmux_output_junk=true and a pane width on the <=0 edge; (R2) every key the server can put in its config map has a JSON tag in the struct the relay re-marshals; (R3) trz and tsz servers perform the same capability checks before sending the config and clamp the protocol to min(client, own); (R4) all four pumps test the same end markers on the transferring edge and reset to standby, the markers are '#'+type+':' of the types the ends actually use, the client-input pump also handles a lone Ctrl-C; (R5) every handshake exit flushes, and the reset clears listener, tunnel pair and tunnel flag on the CAS-won path. Not decided: equivalence with a direct transfer, sequences of transfers at run time.",
+	register("C14", 25, "Decided (for every path of the current source): (R1) between receiving and re-sending the action the relay only stores constant false into capability flags and clamps Protocol to its own maximum on the Protocol>max edge; without a tunnel the binary capability is cleared on every path to the re-send; the config is only extended by tmux_output_junk=true and a pane width on the <=0 edge; (R2) every key the server can put in its config map has a JSON tag in the struct the relay re-marshals; (R3) trz and tsz servers perform the same capability checks before sending the config and clamp the protocol to min(client, own); (R4) all four pumps test the same end markers on the transferring edge and reset to standby, the markers are '#'+type+':' of the types the ends actually use, the client-input pump also handles a lone Ctrl-C; (R5) every handshake exit flushes, and the reset clears listener, tunnel pair and tunnel flag on the CAS-won path. Not decided: equivalence with a direct transfer, sequences of transfers at run time. Added: (R3) config only on the confirmed edge, Cancelled only on the declined edge and always through the exit message, unsupported fork/directory refused; (R4) every reset to standby has a reason (end marker or lone Ctrl-C); (R7) polarity of the flush routes, the confirmed flag, the recorded tunnel flag and client framing, the tmux junk flag.",
 		func(c *Ctx) {
 			c.run("C14-R1", "WHO-WRITES+GUARD-DOM: narrowing-only rewrites of action and config", c14R1)
 			c.run("C14-R2", "LITERAL: config keys written by the server all survive the relay's re-marshalling", c14R2)
